@@ -1,11 +1,10 @@
 SPECIFICATION MCSpec
 CONSTANTS
-  NC = 4
-  NF = 2
+  NC = 3
+  NF = 1
   WinC = 2
-  StrictForward = TRUE
+  StrictForward = FALSE
   StopAtGenesis = TRUE
   MaxFaults = 2
 INVARIANTS SavedAreTrueAncestorsContiguous CompleteWhenDone
-PROPERTIES Completes DoneWhenNothingLeft
 CHECK_DEADLOCK FALSE
